@@ -125,7 +125,7 @@ func cycleFactors(s ref.State, img *mem.Image) (op byte, pcross, rel8, taken, bc
 }
 
 func C12(r *vf.Run) {
-	r.Rule = "(a) cycle-factor sweep on both interpreters: a state is constructed for every opcode x (E,M,X) x DL!=0 x index page-cross x branch {not taken, taken, taken across a page} and the accounting equalities asserted (cycles >= 1, AllCycles advances by exactly the returned value, Cycles field equals it, stopped iff STP executed, sticky until Reset); (b) twin replay of System.RunUntil against a literal single-stepping specification over generated (program, target, budget) cases, comparing state, AllCycles, memory, return value and Logger.Write count; (c) OnPC callbacks counted against instruction fetches at their address, OnWDM operand on both interpreters. A cell is (opcode, E, M, X, DL, page-cross, branch outcome) for (a) and (stop reason, budget class, target class) for (b)"
+	r.Rule = "(a) cycle-factor sweep on both interpreters: a state is constructed for every opcode x (E,M,X) x DL!=0 x index page-cross x branch {not taken, taken, taken across a page} and the accounting equalities asserted (cycles >= 1, AllCycles advances by exactly the returned value, Cycles field equals it, stopped iff STP executed, sticky until Reset); (b) twin replay of System.RunUntil against a literal single-stepping specification over generated (program, target, budget) cases, comparing state, AllCycles, memory, return value and Logger.Write count; (c) OnPC callbacks counted against instruction fetches at their address - on fresh CPUs and on one reused CPU whose callback set is moved, replaced, grown, shrunk and self-re-armed between runs - and OnWDM operand on both interpreters. A cell is (opcode, E, M, X, DL, page-cross, branch outcome) for (a) and (stop reason, budget class, target class) for (b)"
 	r.Assume = []string{"cpualt declares OnPC but implements no program-counter callback and has no RunUntil: judged on Step accounting and OnWDM only", "termination is decided on logical counts (iterations <= budget), never on wall-clock time"}
 	ncpu := runtime.NumCPU()
 	var zeroCycle int32
@@ -605,7 +605,142 @@ func C12(r *vf.Run) {
 			}
 		})
 	}
+	if r.Phase("callbacks-reused-cpu") {
+		// one CPU instance stepped through several runs while the set of registered OnPC
+		// callbacks changes between (and during) runs: same size / different keys, replaced map,
+		// grown, shrunk, a callback that re-arms itself further ahead
+		n := r.N(800, 80000)
+		chunks := 80
+		r.Parallel(ncpu, chunks, func(wi, ci int) {
+			w := newDiffWorker(r)
+			defer w.flush()
+			g := r.Rand("cb2").Fork(uint64(ci))
+			for i := 0; i < n/chunks && !r.TooMany(); i++ {
+				s := genState(g)
+				s.PC = uint16(0x1000 + g.Intn(0x8000))
+				s.S = 0x01FF
+				img := mem.New(g.U64())
+				k := uint32(s.K) << 16
+				// a sled of one-byte instructions, looping back with BRA so addresses are revisited
+				sled := 24 + g.Intn(40)
+				for j := 0; j < sled; j++ {
+					img.Ov[k|uint32(s.PC)+uint32(j)] = []byte{0xEA, 0xE8, 0xC8, 0x1A, 0x18}[g.Intn(5)]
+				}
+				img.Ov[k|uint32(s.PC)+uint32(sled)] = 0x80
+				img.Ov[k|uint32(s.PC)+uint32(sled)+1] = byte(0x100 - sled - 2)
+				mp := img.Clone()
+				mp.NoRdSet = true
+				w.rig.loadPrim(s, false, g) // the only Init of this history
+				c := &w.rig.prim
+				w.rig.bm.M = mp
+				registered := map[uint32]bool{}
+				got := map[uint32]int{}
+				want := map[uint32]int{}
+				c.OnPC = map[uint32]func(){}
+				var hist []string
+				addrAt := func(j int) uint32 { return k | uint32(s.PC+uint16(j%sled)) }
+				var reg func(a uint32)
+				reg = func(a uint32) {
+					registered[a] = true
+					c.OnPC[a] = func() { got[a]++ }
+				}
+				regRearm := func(a uint32, ahead int) {
+					registered[a] = true
+					c.OnPC[a] = func() {
+						got[a]++
+						// one-shot breakpoint that re-arms itself further ahead (count stays the same)
+						delete(c.OnPC, a)
+						delete(registered, a)
+						nx := k | uint32(uint16(a)+uint16(ahead))
+						if uint16(nx)-s.PC < uint16(sled) && !registered[nx] {
+							reg(nx)
+						}
+					}
+				}
+				for j := 0; j < 1+g.Intn(3); j++ {
+					reg(addrAt(g.Intn(sled)))
+				}
+				if g.Intn(3) == 0 {
+					a := addrAt(g.Intn(sled))
+					regRearm(a, 1+g.Intn(9))
+					hist = append(hist, fmt.Sprintf("rearming breakpoint at $%06x", a))
+				}
+				runs := 2 + g.Intn(4)
+				okAll := true
+				for run := 0; run < runs && okAll; run++ {
+					steps := 5 + g.Intn(2*sled)
+					for st := 0; st < steps; st++ {
+						at := uint32(c.RK)<<16 | uint32(c.PC)
+						if registered[at] {
+							want[at]++
+						}
+						if res := w.rig.stepPrim(mp); res.pan != nil {
+							break
+						}
+					}
+					for a, n := range want {
+						if got[a] != n {
+							r.Fail("onpc-count-after-reregistration", fmt.Sprintf("run %d on a reused CPU: OnPC($%06x) ran %d times, %d instructions were fetched there while it was registered; history: %v", run, a, got[a], n, hist), map[string]interface{}{"start": s.String(), "sled": sled})
+							okAll = false
+							break
+						}
+					}
+					for a, n := range got {
+						if want[a] != n && okAll {
+							r.Fail("onpc-count-after-reregistration", fmt.Sprintf("run %d on a reused CPU: OnPC($%06x) ran %d times but should have run %d times; history: %v", run, a, n, want[a], hist), nil)
+							okAll = false
+						}
+					}
+					// change the key set between runs
+					keys := make([]uint32, 0, len(registered))
+					for a := range registered {
+						keys = append(keys, a)
+					}
+					switch mut := g.Intn(5); {
+					case mut == 0 && len(keys) > 0: // move one breakpoint: same count, different key
+						old := keys[g.Intn(len(keys))]
+						delete(c.OnPC, old)
+						delete(registered, old)
+						nw := addrAt(g.Intn(sled))
+						reg(nw)
+						hist = append(hist, fmt.Sprintf("moved $%06x->$%06x", old, nw))
+						w.cells["reuse:moved-same-count"]++
+					case mut == 1: // replace the whole map by one of equal size
+						nm := map[uint32]func(){}
+						c.OnPC = nm
+						cnt := len(registered)
+						for a := range registered {
+							delete(registered, a)
+						}
+						for j := 0; j < cnt; j++ {
+							reg(addrAt(g.Intn(sled)))
+						}
+						hist = append(hist, fmt.Sprintf("replaced map (%d keys)", cnt))
+						w.cells["reuse:map-replaced"]++
+					case mut == 2:
+						nw := addrAt(g.Intn(sled))
+						reg(nw)
+						hist = append(hist, fmt.Sprintf("added $%06x", nw))
+						w.cells["reuse:grown"]++
+					case mut == 3 && len(keys) > 0:
+						old := keys[g.Intn(len(keys))]
+						delete(c.OnPC, old)
+						delete(registered, old)
+						hist = append(hist, fmt.Sprintf("removed $%06x", old))
+						w.cells["reuse:shrunk"]++
+					default:
+						w.cells["reuse:unchanged"]++
+					}
+				}
+				r.Eval(1)
+				c.OnPC = nil
+			}
+		})
+	}
 	if r.OnlyPhase == "" {
+		for _, c := range []string{"reuse:moved-same-count", "reuse:map-replaced", "reuse:grown", "reuse:shrunk"} {
+			r.Require(c)
+		}
 		for op := 0; op < 256; op++ {
 			br := 0
 			if op == 0x80 { // BRA is always taken
